@@ -63,10 +63,14 @@ def build(case):
         is_s = rng.random() < 0.55
         nd = rng.choice([0, 0, 1, 1, 2, 3])
         dimmed = None
-        if rng.random() < 0.5:
+        if rng.random() < (0.5 if nd <= 1 else 0.85):
             dimmed = [rng.choice([1, 3, 5, 10, 12]) for _ in range(nd)]
-        npos = rng.choice([1, 1, 1, 2, 3])
+        npos = rng.choice([1, 1, 2, 2, 3])
         poss = rng.sample(POSITIONS, npos)
+        if rng.random() < 0.8 and not (set(poss) & {"target", "expr", "print", "fnarg", "subscript", "fnarg_conv"}):
+            # most variables also occur somewhere the passes look (keeps the known READ/INPUT/VARPTR-only
+            # mechanisms to a minority of the workload)
+            poss.append(rng.choice(["target", "expr", "print", "fnarg"]))
         spec.append((nm + ("$" if is_s else ""), is_s, nd, dimmed, poss))
     prog = []
     ln = 10
